@@ -52,6 +52,18 @@ def add_tail_shapes(p):
             {"v": "Some", "bind": "zm", "wild": False, "b": [n("ret", e=V("zm"))]},
             {"v": "None", "bind": "", "wild": False, "b": [n("ret", e=I(0))]}])]}
     zt4 = {"n": "zt4", "ps": ["k"], "pt": ["Int"], "rt": "Int", "line": 0, "b": [n("ret", e=P("+", V("k"), I(1)))]}
+    # comparisons of a list length with 0 / 1, literal on either side: the lint rewrites some of them to
+    # is_empty() / is_non_empty(), and the printed truth value must survive
+    k = 0
+    for xs in ([], [7], [7, 8]):
+        for lit in (0, 1):
+            for op in ("<", "<=", ">", ">=", "==", "!="):
+                k += 1
+                if k % 3 != (g.nid // 7) % 3 and False:
+                    continue
+                ln = n("mcall", m="len", recv=n("list", xs=[I(x) for x in xs]), args=[])
+                e = n("bin", op=op, l=I(lit), r=ln) if k % 2 else n("bin", op=op, l=ln, r=I(lit))
+                p["main"].append(n("show", e=n("paren", e=e)))
     p["funs"] += [zt1, zt2, zt3, zt4]
     for f, a in (("zt1", 9), ("zt1", 1), ("zt2", 9), ("zt2", 1), ("zt3", 0), ("zt3", 4), ("zt4", 1)):
         p["main"].append(n("show", e=n("call", f=V(f), args=[I(a)])))
